@@ -74,6 +74,70 @@ async fn panics() {
     println!("own_join_after_panic join={}", show(end.map(|x| x.map(|_| "actor"))));
 }
 
+// ---- restart strategies through the builder terminals (C07): which callbacks serve a restart request
+static LOG: std::sync::Mutex<Vec<&'static str>> = std::sync::Mutex::new(Vec::new());
+
+#[derive(Debug)]
+struct Rs(bool);
+impl Default for Rs {
+    fn default() -> Self {
+        LOG.lock().unwrap().push("default");
+        Rs(true)
+    }
+}
+impl Actor for Rs {
+    async fn started(&mut self, _: &mut Context<Self>) -> DynResult<()> {
+        LOG.lock().unwrap().push("started");
+        Ok(())
+    }
+    async fn stopped(&mut self, _: &mut Context<Self>) {
+        LOG.lock().unwrap().push("stopped");
+    }
+}
+impl RestartableActor for Rs {}
+impl Handler<M1> for Rs {
+    async fn handle(&mut self, _: &mut Context<Self>, _: M1) -> u32 {
+        LOG.lock().unwrap().push("handle");
+        1
+    }
+}
+
+async fn strategy_tail(ep: &str, mut addr: Addr<Rs>, owning: Option<OwningAddr<Rs>>) {
+    let _ = within(addr.call(M1)).await;
+    LOG.lock().unwrap().push("|");
+    let _ = addr.restart();
+    let _ = within(addr.call(M1)).await;
+    LOG.lock().unwrap().push("|");
+    let _ = addr.stop();
+    match owning {
+        Some(mut o) => {
+            let _ = within(o.join()).await;
+        }
+        None => {
+            let _ = within(addr).await;
+        }
+    }
+    let log: Vec<&str> = std::mem::take(&mut *LOG.lock().unwrap());
+    let mid: Vec<&str> = log.split(|x| *x == "|").nth(1).unwrap_or(&[]).iter().copied().filter(|x| *x != "handle").collect();
+    println!("strategy_{ep} restart={}", mid.join(","));
+}
+
+async fn strategies() {
+    let own = |o: OwningAddr<Rs>| (o.to_addr(), Some(o));
+    strategy_tail("spawn", Rs(false).spawn(), None).await;
+    let (a, o) = own(Rs(false).spawn_owning());
+    strategy_tail("spawn_owning", a, o).await;
+    strategy_tail("build_spawn", hannibal::build(Rs(false)).unbounded().spawn(), None).await;
+    let (a, o) = own(hannibal::build(Rs(false)).unbounded().spawn_owning());
+    strategy_tail("build_spawn_owning", a, o).await;
+    strategy_tail("build_recreate_spawn", hannibal::build(Rs(false)).unbounded().recreate_from_default().spawn(), None).await;
+    let (a, o) = own(hannibal::build(Rs(false)).unbounded().recreate_from_default().spawn_owning());
+    strategy_tail("build_recreate_spawn_owning", a, o).await;
+    strategy_tail("build_non_restartable_spawn", hannibal::build(Rs(false)).unbounded().non_restartable().spawn(), None).await;
+    let (a, o) = own(hannibal::build(Rs(false)).unbounded().non_restartable().spawn_owning());
+    strategy_tail("build_non_restartable_spawn_owning", a, o).await;
+}
+
 async fn within<F: Future>(f: F) -> Option<F::Output> {
     let t = runtime::sleep(Duration::from_millis(500)).fuse();
     let f = f.fuse();
@@ -136,6 +200,10 @@ fn main() {
     if std::env::args().nth(1).as_deref() == Some("panics") {
         std::panic::set_hook(Box::new(|_| {}));
         runtime::block_on(panics());
+        return;
+    }
+    if std::env::args().nth(1).as_deref() == Some("strategies") {
+        runtime::block_on(strategies());
         return;
     }
     runtime::block_on(run());
